@@ -4,6 +4,7 @@ P = {'id': 'C06',
  'theorems': ['norm_avoids_markers',
               'std_refines_map',
               'smallmap_refines_map',
+              'gold_refines_map',
               'remove_loop_is_get_loop',
               'sentinel_unmapped_refuted',
               'tombstone_first_slot_refuted',
